@@ -101,6 +101,12 @@ CHECKS.update({
             'that loses and delays replies around the retry instants; closes, link errors and reopens are placed relative to pending timers; '
             'every transmission is compared with the set of instants the retry law allows.',
             'Virtual time (timers exact); coincidences of a timer instant with a reply or a close are accepted either way.'),
+    'C19': ('exploration', 'DESIGN.md 3/C19', 'dsched',
+            'Hypothesis-generated swarm sizes, call scripts, argument dictionaries (fresh/re-used/shared lists), failing subsets and thread schedules under the deterministic scheduler; exactly-once/argument/order/error-chain oracle',
+            'The real Swarm is driven with fake members over generated scripts of sequential/parallel/parallel_safe calls with failing subsets '
+            'and yield points inside the action bodies; who ran, with which arguments, in which order, when the call returned and which error '
+            'was chained are all compared with the script.',
+            'Members are fakes; interleavings at thread start/join and yield points in action bodies.'),
 })
 
 ALL = ['C%02d' % i for i in range(1, 21)]
